@@ -7,7 +7,7 @@ From PV Require Import Base Builder.
 Local Open Scope string_scope.
 
 Inductive cterm :=
-| CArg (txt : string) (tabs : list (option tbl)) (tab : option (option tbl)) (isstar isempty : bool)
+| CArg (txt : string) (tabs ftabs : list (option tbl)) (tab : option (option tbl)) (isstar isempty : bool)
 | CFieldOf (name : string) (t : option tbl)
 | CAnd (a b : cterm)
 | CInt (z : Z)
@@ -15,15 +15,17 @@ Inductive cterm :=
 | CRollupT (args : list cterm).
 
 Definition c_fields_tables (t : cterm) : list (option tbl) :=
-  match t with CArg _ tabs _ _ _ => tabs | _ => [] end.
-Definition c_is_empty (t : cterm) : bool := match t with CArg _ _ _ _ e => e | _ => false end.
+  match t with CArg _ tabs _ _ _ _ => tabs | _ => [] end.
+Definition c_find_tables (t : cterm) : list (option tbl) :=
+  match t with CArg _ _ ftabs _ _ _ => ftabs | _ => [] end.
+Definition c_is_empty (t : cterm) : bool := match t with CArg _ _ _ _ _ e => e | _ => false end.
 (* Criterion.__and__ / EmptyCriterion.__and__ *)
 Definition c_and (a b : cterm) : cterm :=
   if c_is_empty a then b else if c_is_empty b then a else CAnd a b.
-Definition c_is_star (t : cterm) : bool := match t with CArg _ _ _ s _ => s | CStar => true | _ => false end.
+Definition c_is_star (t : cterm) : bool := match t with CArg _ _ _ _ s _ => s | CStar => true | _ => false end.
 Definition c_sel_table (t : cterm) : option (option tbl) :=
   match t with
-  | CArg _ _ tab _ _ => tab
+  | CArg _ _ _ tab _ _ => tab
   | CFieldOf _ t => Some t
   | CStar => Some None
   | _ => None
@@ -33,9 +35,9 @@ Definition c_rollup_args (t : cterm) : option (list cterm) := match t with CRoll
 Definition cstate := qstate cterm.
 Definition ccall := call cterm.
 Definition cstep : cstate -> ccall -> res cstate :=
-  step cterm c_fields_tables c_and c_is_empty CFieldOf CInt CStar c_is_star c_sel_table CRollupT c_rollup_args.
+  step cterm c_fields_tables c_find_tables c_and c_is_empty CFieldOf CInt CStar c_is_star c_sel_table CRollupT c_rollup_args.
 Definition crun : cstate -> list ccall -> res cstate :=
-  run cterm c_fields_tables c_and c_is_empty CFieldOf CInt CStar c_is_star c_sel_table CRollupT c_rollup_args.
+  run cterm c_fields_tables c_find_tables c_and c_is_empty CFieldOf CInt CStar c_is_star c_sel_table CRollupT c_rollup_args.
 
 (* ---- descriptions (same format as C08.py: desc_tbl / desc_term / dump_state) ---------------- *)
 Definition d_ostr (o : option string) : string := match o with Some s => s | None => "~" end.
@@ -49,7 +51,7 @@ Definition d_otbl (t : option tbl) : string := match t with Some x => d_tbl x | 
 
 Fixpoint d_term (t : cterm) : string :=
   match t with
-  | CArg txt _ _ _ _ => txt
+  | CArg txt _ _ _ _ _ => txt
   | CFieldOf n tb => "F(" ++ n ++ "|" ++ d_otbl tb ++ ")"
   | CAnd a b => "AND(" ++ d_term a ++ "," ++ d_term b ++ ")"
   | CInt z => "V(" ++ Z_to_string z ++ ")"
